@@ -642,12 +642,11 @@ def c_inference_pareto_front(
     c_inf.preprocess_belief_base(0)
     csp = c_inf.base_csp
 
-    n = len(belief_base.conditionals)
-    minimize_vars = [f"eta_{i}" for i in range(1, n + 1)]
+    indices = sorted(belief_base.conditionals.keys())
+    minimize_vars = [f"eta_{i}" for i in indices]
 
     solutions = solve_pareto_front(csp, minimize_vars, max_solutions=max_solutions)
 
-    indices = sorted(belief_base.conditionals.keys())
     return [tuple(sol.get(f"eta_{i}", 0) for i in indices) for sol in solutions]
 
 
